@@ -1,5 +1,5 @@
 """C02 - credulous acceptance answers match the semantics (narrow clauses only)"""
-from . import accept, cli, provenance, progress
+from . import grounded, accept, cli, provenance, progress
 
 
 def run(ctx):
@@ -16,6 +16,7 @@ def run(ctx):
     progress.rule_selector_freshness(ctx)
     progress.rule_local_selector_retired(ctx)
     accept.rule_stage_layering(ctx, 'credulous')
+    grounded.rule_grounded_propagation(ctx)
     ctx.assume("rustc's MIR and resolved callees; the tables stated in the property (DC-PR through the complete solver)")
     return (
         "F2/F5 on the stable solver (no stable extension in a component => NO for every credulous query, by the constant pair passed by the entry "
